@@ -27,9 +27,12 @@
   * Escalation edges AS THE CODE HAS THEM:
       worker failed     → its watcher (`werr`, `creq`)  → the watcher ends `failed` (RuntimeError);
       watcher of a root observer failed  = that root task failed → `run_tasks` stops everything;
-      ensemble task failed → NOBODY (the orchestrator never looks at its tasks) — `cfg.fixed = false`.
-    The variant `cfg.fixed = true` has the missing edge: a failed ensemble task cancels the
-    orchestrator, which stops the streams and ends `failed`.
+      ensemble task failed → the orchestrator (its done-callback): it is cancelled, stops the streams and ends
+        `failed` with that error — `cfg.fixed = true`, THE MODEL OF THE CURRENT TREE (since /repo 9ef1bcb);
+        exempt: a watcher that ended with HTTP 404 (`gone`: its resource was deleted) — not a failure; tasks that
+        exited on their own are cleaned up by `terminate_redundancies` (`subCancel` for their key-mates) and
+        spawned anew while the key is served (`subSpawn`).
+    `cfg.fixed = false` is the HISTORICAL variant (before 9ef1bcb): nobody looked at the ensemble tasks.
   * Time. `delay n` is the only label that lets time pass. It is disabled while anything
     "instantaneous" is pending (`urgent`): an undelivered cancellation of a live task (tasks honour
     cancellation), a wait whose condition already holds, a timed wait whose deadline is reached.
@@ -190,6 +193,7 @@ structure State where
   kind : Nat → SubKind
   nSubs : Nat
   withdrawn : Nat → Bool          -- the keep-alive sent its `lifetime=0` PATCH
+  gone : Nat → Bool               -- the watcher ended with HTTP 404: its resource is gone (e.g. CRD deleted)
   wk : Nat → Option (Task × WS)   -- workers: owner and status
   nWorkers : Nat
   dm : Nat → DS
@@ -222,7 +226,7 @@ def initSt : Task → TS
 
 def init : State :=
   { now := 0, st := initSt, creq := fun _ => false, werr := fun _ => false,
-    kind := fun _ => .watcher, nSubs := 0, withdrawn := fun _ => false,
+    kind := fun _ => .watcher, nSubs := 0, withdrawn := fun _ => false, gone := fun _ => false,
     wk := fun _ => none, nWorkers := 0, dm := fun _ => .absent, nDaemons := 0,
     core := .waitingFlag, coreCreq := false, started := false, ready := false,
     sc := .init, rt := .waiting, stopFlagSet := false, waiter := true, orphans := 0, killed := false,
@@ -253,6 +257,8 @@ inductive Label where
   -- the orchestrator's ensemble
   | subSpawn (k : SubKind)
   | subStopping (i : Nat) (fail : Bool)
+  | subGone (i : Nat)
+  | subCancel (i : Nat)
   | withdraw (i : Nat)
   | subEnd (i : Nat) (how : TS)
   -- workers, daemons, helper
@@ -519,13 +525,32 @@ def step (cfg : Cfg) (s : State) : Label → Option State
     if s.rt ≠ .exited ∧ s.st (.root .orchestrator) = .running then
       some { s with st := upd s.st (.sub s.nSubs) .running, kind := upd s.kind s.nSubs k,
                     creq := upd s.creq (.sub s.nSubs) false, werr := upd s.werr (.sub s.nSubs) false,
-                    withdrawn := upd s.withdrawn s.nSubs false, nSubs := s.nSubs + 1 }
+                    withdrawn := upd s.withdrawn s.nSubs false, gone := upd s.gone s.nSubs false,
+                    nSubs := s.nSubs + 1 }
     else none
   | .subStopping i fail =>
     if s.rt ≠ .exited ∧ i < s.nSubs ∧ s.st (.sub i) = .running
         ∧ (fail = true ∨ (s.creq (.sub i) = true ∧ s.werr (.sub i) = false)) then
       some { s with st := upd s.st (.sub i) (.stopping fail (some (s.now + grace cfg s (.sub i)))),
                     creq := upd s.creq (.sub i) false }
+    else none
+  | .subGone i =>
+    -- the (re-)listing of the watcher got HTTP 404 (`APINotFoundError`): the resource is gone, e.g. its CRD was
+    -- deleted and the watcher noticed before the resource observer did. The task ends with that exception,
+    -- but this is NOT a failure for the orchestrator (see `subEnd`).
+    if s.rt ≠ .exited ∧ i < s.nSubs ∧ s.st (.sub i) = .running ∧ s.kind i ≠ .pinger then
+      some { s with st := upd s.st (.sub i) (.stopping true (some (s.now + grace cfg s (.sub i)))),
+                    creq := upd s.creq (.sub i) false, gone := upd s.gone i true }
+    else none
+  | .subCancel i =>
+    -- `terminate_redundancies`: the running orchestrator cancels the tasks of a key that is no longer served,
+    -- or one of whose tasks has exited on its own (they are spawned anew if the key is still served: `subSpawn`).
+    -- A task that is already in its `finally:` suppresses the cancellation.
+    if s.rt ≠ .exited ∧ i < s.nSubs ∧ s.st (.root .orchestrator) = .running then
+      match s.st (.sub i) with
+      | .running => some { s with creq := upd s.creq (.sub i) true }
+      | .stopping _ _ => some s
+      | _ => none
     else none
   | .withdraw i =>
     if s.rt ≠ .exited ∧ i < s.nSubs ∧ s.kind i = .pinger then
@@ -539,8 +564,8 @@ def step (cfg : Cfg) (s : State) : Label → Option State
       | .stopping f _ =>
         if how = failTS f ∧ noLiveWorkerOf s (.sub i) = true ∧ (s.kind i = .pinger → s.withdrawn i = true) then
           let s1 : State := { s with st := upd s.st (.sub i) how }
-          if cfg.fixed = true ∧ f = true ∧ s.st (.root .orchestrator) = .running then
-            -- the missing edge: a failed ensemble task cancels the orchestrator
+          if cfg.fixed = true ∧ f = true ∧ s.gone i = false ∧ s.st (.root .orchestrator) = .running then
+            -- the done-callback of the orchestrator: a failed ensemble task cancels it (HTTP 404 is exempt)
             some { s1 with creq := upd s.creq (.root .orchestrator) true, orchErr := true }
           else some s1
         else none
@@ -634,6 +659,23 @@ def step (cfg : Cfg) (s : State) : Label → Option State
         else none
       | _ => none
     else none
+
+/-! ### what the model claims about the CURRENT source (re-extracted from the AST on every run and proved
+    equal in `Kopf/Tie/C20.lean`) -/
+
+/-- the orchestrator attaches a done-callback to its ensemble tasks, which cancels it on a failure, and re-raises
+    that failure after having stopped the streams: the edge guarded by `cfg.fixed` in `subEnd` -/
+def headEscalates : Bool := true
+/-- that callback passes over `APINotFoundError`: the `gone i = false` guard of the edge, label `subGone` -/
+def headIgnoresNotFound : Bool := true
+/-- `terminate_redundancies` treats keys with exited tasks as redundant (then spawned anew): `subCancel`, `subSpawn` -/
+def headRestartsExited : Bool := true
+/-- `scan_resources` gathers its requests and cancels them with itself: the observers leave no orphaned requests
+    behind (the model still ALLOWS orphans — other helpers may be left behind —, so this is only tied, not used) -/
+def headScanCancelsChildren : Bool := true
+
+/-- the configuration of the model of the current tree -/
+def headCfg (e w d c h : Nat) : Cfg := { fixed := headEscalates, E := e, W := w, D := d, C := c, H := h }
 
 /-- Replay a label list. -/
 def run (cfg : Cfg) : State → List Label → Option State
